@@ -44,7 +44,8 @@ def frames_equal(a, b):
 def gen_ops(rng, n):
     ops = []
     for _ in range(rng.randint(2, 6)):
-        k = rng.choice(["full", "subset", "shuffle", "repeat_rows", "index_str", "index_offset", "single", "empty"])
+        k = rng.choice(["full", "subset", "shuffle", "repeat_rows", "index_str", "index_offset", "single", "empty",
+                        "by_value"])
         if k == "full":
             sel = list(range(n))
         elif k == "subset":
@@ -58,6 +59,8 @@ def gen_ops(rng, n):
             sel = [rng.randrange(n)]
         elif k == "empty":
             sel = []
+        elif k == "by_value":
+            sel = ["by_value", rng.randint(1, 3)]    # resolved in run_impl: rows holding the j smallest values
         else:
             sel = list(range(n))
             rng.shuffle(sel)
@@ -96,6 +99,13 @@ class C07(Prop):
                 f2 = c["features"][1]
                 f2["values"] = encs([chr(ord("a") + ord("j") - ord(v)) if isinstance(v, str) and len(v) == 1 and "a" <= v <= "j"
                                      else v for v in decs(f2["values"])])
+            elif i % 9 == 4:
+                # small integer counts carved with float labels (ranks 0..k): frames made of a few small values
+                # look like label sets
+                cls = rng.choice(["BinaryCarver", "ContinuousCarver"])
+                c = B.gen_case(rng, cls, force={"kind": "quant", "qflavour": "discrete", "nfeat": 1,
+                                                "n": rng.choice([120, 200, 400])})
+                c["params"]["output_dtype"] = "float"
             elif i % 7 == 2 and cls != "QuantitativeDiscretizer":
                 # numeric-coded qualitative feature WITH missing values (StringDiscretizer path works in place)
                 c = B.gen_case(rng, cls, force={"kind": "cat", "cflavour": rng.choice(["ints", "floats", "mixed"]),
@@ -104,6 +114,8 @@ class C07(Prop):
                 c = B.gen_case(rng, cls)
             c["json"] = False
             c["ops"] = gen_ops(rng, len(c["y"]))
+            if i % 9 == 4:
+                c["ops"] += [{"kind": "by_value", "sel": ["by_value", j]} for j in (1, 2, 3)]
             c["with_dev"] = c["cls"].endswith("Carver") and rng.random() < 0.35
             cases.append(c)
         return cases
@@ -196,6 +208,12 @@ class C07(Prop):
                     out["issues"].append(f"summary()/history() raised {type(e).__name__} on a fitted object")
             Xs, _ = fresh()
             sel = op["sel"]
+            if sel and sel[0] == "by_value":
+                # the rows whose value of the first kept feature is among its j smallest values (a frame made of
+                # a few small numbers only: what a label set looks like)
+                col0 = list(Xs[names[0]])
+                small = sorted({v for v in col0 if isinstance(v, (int, float)) and v == v})[: sel[1]]
+                sel = [i for i, v in enumerate(col0) if isinstance(v, (int, float)) and v in small][:50]
             Xo = Xs.iloc[sel].copy()
             if op["kind"] == "index_str":
                 Xs.index = [f"id{i:04d}" for i in range(n)]
